@@ -37,6 +37,8 @@ let arg_op t = match String.split_on_char ';' t with
   | _ -> failwith ("arg_op " ^ t)
 let show_opres = function
   | RNode r -> show_outcome show_node r
+  (* a generator that raises before its first yield is observed as "no element, then the exception" *)
+  | RList (Raise e) -> "([] !" ^ show_exn e ^ ")"
   | RList r -> show_outcome (fun (ks, e) -> "(" ^ show_list show_node ks ^ " " ^ show_exnopt e ^ ")") r
   | RSkip -> "SKIP"
 let show_pairopt = function
@@ -83,8 +85,9 @@ let dispatch f args = match f, args with
        | other -> other)
   | "electrum_subkeys", [s; p; path] ->
     (match c09_electrum_init (arg_opt arg_z s) (if s = "N" then Some (arg_z p) else None) with
-     | Ret w -> show_outcome (fun (ks, e) -> "(" ^ show_list show_ew ks ^ " " ^ show_exnopt e ^ ")")
-                  (c09_electrum_subkeys oxy odsha w (arg_bytes path))
+     | Ret w -> (match c09_electrum_subkeys oxy odsha w (arg_bytes path) with
+                 | Raise e -> "([] !" ^ show_exn e ^ ")"
+                 | r -> show_outcome (fun (ks, e) -> "(" ^ show_list show_ew ks ^ " " ^ show_exnopt e ^ ")") r)
      | Raise e -> "!" ^ show_exn e
      | OutOfFuel -> "!OUT_OF_FUEL")
   | "electrum_init", [s; p] ->
